@@ -249,6 +249,7 @@ def runEnum (name : String) (args : List String) (out : IO.FS.Stream) : Option (
   match name with
   | "c03.grid" => some (enumGrid out)
   | "c03.months" => some (enumMonths out)
+  | "c10.warm" => some (enumMonths out)   -- a second request in one process is answered like the first
   | "c03.tiles.spec" => some (enumTilesSpec out)
   | "c03.next" => some (enumNext false args out)
   | "c03.next.spec" => some (enumNext true args out)
